@@ -254,6 +254,91 @@ fn corpus() -> Vec<String> {
     ]
 }
 
+
+const GOOD: [&str; 3] = ["0.0.1.f.1.1.5", "1.1.1.f.1.1.2", "2.2.1.f.1.1.3"];
+
+/// Deterministic single-cause corpus: for every paid kind, client path, NEW key, fully valid content:
+/// the all-true vector and every vector with exactly one payment condition false, each condition in
+/// every distinct way the descriptors can make it false (own quote / another payee's quote; expired /
+/// future; bad signature / signed by somebody else; on-chain: own result invalid, another payee's result
+/// invalid while own is valid, contract call with 1/2/4/5 entries (reverts)); plus own amount zero.
+pub fn single_cause_corpus() -> Vec<String> {
+    let kinds: [(&str, u64, &str); 4] = [("chunkp", 0, "C0"), ("padp", 1, "S0.3.v"), ("txp", 1, "T0.1.v"), ("regp", 2, "R0.g.1v")];
+    // (quotes, close)
+    let mut pays: Vec<(Vec<String>, &str)> = vec![];
+    let good = || GOOD.iter().map(|s| s.to_string()).collect::<Vec<_>>();
+    let with = |i: usize, q: &str| {
+        let mut v = GOOD.iter().map(|s| s.to_string()).collect::<Vec<_>>();
+        v[i] = q.to_string();
+        v
+    };
+    pays.push((good(), "0.1.2")); // all true
+    pays.push((with(0, "0.0.1.f.1.1.0"), "0.1.2")); // all true, own amount zero
+    pays.push((with(0, "3.3.1.f.1.1.5"), "1.2.3")); // this node is not a payee
+    pays.push((with(0, "0.0.0.f.1.1.5"), "0.1.2")); // own signature bad
+    pays.push((with(1, "1.1.0.f.1.1.2"), "0.1.2")); // another payee's signature bad
+    pays.push((with(1, "1.3.1.f.1.1.2"), "0.1.2")); // another payee's quote signed by somebody else
+    pays.push((with(0, "0.4.1.f.1.1.5"), "0.1.2")); // own entry signed by somebody else
+    pays.push((with(0, "0.0.1.e.1.1.5"), "0.1.2")); // own quote expired
+    pays.push((with(0, "0.0.1.u.1.1.5"), "0.1.2")); // own quote from the future
+    pays.push((with(2, "2.2.1.e.1.1.3"), "0.1.2")); // another payee's quote expired
+    pays.push((with(2, "2.2.1.u.1.1.3"), "0.1.2")); // another payee's quote from the future
+    pays.push((good(), "1.2")); // this node not in the close set
+    pays.push((good(), "0.1")); // another payee not in the close set
+    pays.push((good(), "-")); // nobody known as close
+    pays.push((with(0, "0.0.1.f.1.0.5"), "0.1.2")); // on-chain: own result invalid
+    pays.push((with(1, "1.1.1.f.1.0.2"), "0.1.2")); // on-chain: another payee's result invalid, own valid
+    pays.push((with(2, "2.2.1.f.1.0.0"), "0.1.2")); // on-chain: another payee's result invalid and unpaid
+    pays.push((vec![GOOD[0].to_string()], "0.1.2")); // on-chain: one entry (contract reverts)
+    pays.push((vec![GOOD[0].to_string(), GOOD[1].to_string()], "0.1.2")); // two entries
+    pays.push((vec![GOOD[1].to_string(), GOOD[0].to_string(), GOOD[2].to_string(), "3.3.1.f.1.1.1".to_string()], "0.1.2.3")); // four
+    pays.push((vec![GOOD[1].to_string(), GOOD[2].to_string(), "3.3.1.f.1.1.1".to_string(), "4.4.1.f.1.1.1".to_string(), GOOD[0].to_string()], "0.1.2.3.4")); // five, own last
+    pays.push((with(0, "0.0.1.f.0.1.5"), "0.1.2")); // own quote issued for another address
+    pays.push((with(1, "1.1.1.f.0.1.2"), "0.1.2")); // (another payee's quote for another address: allowed)
+    let mut v = vec![];
+    for (kind, dk, content) in kinds {
+        for (qs, close) in &pays {
+            v.push(format!("case - c {kind} {dk} {content} {};{close}", qs.join(",")));
+        }
+    }
+    v
+}
+
+/// Deterministic one-cause corpus for C04: the only thing wrong is the key the record is presented under.
+pub fn key_mismatch_corpus() -> Vec<String> {
+    let good = format!("{};0.1.2", GOOD.join(","));
+    // (kind, derived key, content, held form of the derived key, replicated content)
+    let kinds: [(&str, u64, &str, &str); 8] = [
+        ("chunkp", 0, "C0", "C"),
+        ("chunk", 0, "C0", "C"),
+        ("padp", 1, "S0.3.v", "S1"),
+        ("pad", 1, "S0.3.v", "S1"),
+        ("txp", 1, "T0.1.v", "T2"),
+        ("tx", 1, "T0.1.v", "T2"),
+        ("regp", 2, "R0.g.1v", "R2"),
+        ("reg", 2, "R0.g.1v", "R2"),
+    ];
+    let mut v = vec![];
+    for (kind, dk, content, held) in kinds {
+        let pay = if kind.ends_with('p') { good.clone() } else { "-".to_string() };
+        let other = dk + 3; // same space, next id
+        let other_held = held;
+        for path in ["c", "r"] {
+            // control: the right key, not held / held
+            v.push(format!("case - {path} {kind} {dk} {content} {pay}"));
+            v.push(format!("case {dk}={held} {path} {kind} {dk} {content} {pay}"));
+            // the only defect: another key; nothing held / derived key held / presented key held / both held
+            v.push(format!("case - {path} {kind} {other} {content} {pay}"));
+            v.push(format!("case {dk}={held} {path} {kind} {other} {content} {pay}"));
+            v.push(format!("case {other}={other_held} {path} {kind} {other} {content} {pay}"));
+            v.push(format!("case {dk}={held},{other}={other_held} {path} {kind} {other} {content} {pay}"));
+            // a key of another space
+            v.push(format!("case {dk}={held} {path} {kind} {} {content} {pay}", 3 * 2 + (dk + 1) % 3));
+        }
+    }
+    v
+}
+
 fn enumerate_cases(rng: &mut Rng) -> Vec<String> {
     let mut v = vec![];
     for kind in KINDS {
@@ -387,18 +472,25 @@ impl Gen {
                 for l in corpus() {
                     g.queue.push_back(l);
                 }
+                for l in single_cause_corpus() {
+                    g.queue.push_back(l);
+                }
+                let fixed = g.queue.len() as u64;
                 if n >= 2000 {
                     for l in enumerate_cases(&mut g.rng) {
                         g.queue.push_back(l);
                     }
                 }
-                while (g.queue.len() as u64) < n {
+                while (g.queue.len() as u64) < n + fixed {
                     let l = sample_case(&mut g.rng);
                     g.queue.push_back(l);
                 }
             }
             "c04" => {
                 for l in corpus() {
+                    g.queue.push_back(l);
+                }
+                for l in key_mismatch_corpus() {
                     g.queue.push_back(l);
                 }
                 let thorough = n >= 2000;
